@@ -39,8 +39,10 @@ def required_cells(tier):
         kinds = ["None", "P", "S", "PG"] + (["PH"] if (a, b) == ("PH", "PH") else [])
         for r in kinds:
             req["pair:%s,%s->%s" % (a, b, r)] = 2 if q else 30
-    for g in ("shared-features", "translated-copy", "scaled-copy", "coplanar", "on-face", "random", "rotated"):
+    for g in ("shared-features", "translated-copy", "scaled-copy", "coplanar", "on-face", "random", "rotated", "small-integer-boxes", "strictly-nested"):
         req["gen:" + g] = 10 if q else 200
+    for hc in ("used-then-moved/receiver", "used-then-moved/returned", "moved/receiver"):
+        req["pose:history/" + hc] = 30
     return req
 
 
@@ -83,7 +85,7 @@ def cases(rng, budget, widx, nworkers, tier):
             yield {"a": a2, "b": b2, "label": "rotated", "ls": rng.getrandbits(30), "float": True}
             continue
         (a, b), label = gen.body_pair(rng, ka, kb, small=sm()) if (ka, kb) != ("PH", "PG") else gen.gen_pair(rng, ka, kb, small=sm())
-        yield {"a": a, "b": b, "label": label, "ls": rng.getrandbits(30)}
+        yield C.maybe_hist({"a": a, "b": b, "label": label, "ls": rng.getrandbits(30)}, rng)
 
 
 def judge(case):
@@ -102,6 +104,7 @@ def judge(case):
     ka, kb = a[0], b[0]
     mu = core.Multi()
     mu.cell("pair:%s,%s" % (ka, kb), "pair:%s,%s->%s" % (ka, kb, C.kname(exp)), "gen:" + case["label"])
+    mu.cell(*C.hist_cell(case))
     for o in (a, b):
         if o[0] == "PH":
             mu.cell("body:" + gen.family_of(o))
@@ -150,8 +153,10 @@ def _measures(res, exp, mu, kb_):
 
 
 def worker_report():
+    _h = {"operand_histories": dict(C.HIST_STATS)}
     d = dict(_diag)
     d.update(_inner.report())
+    d.update(_h)
     return d
 
 
